@@ -112,7 +112,9 @@ def _oracle_doc(src):
 
     def own_contents(e):
         """expr.all without whitespace-only text, TexText unwrapped"""
-        return [y for y in (unwrap(x) for x in e.all) if not blank(y) or e.preserve_whitespace]
+        # the reader never asks for preserved whitespace, so on a parsed document the filter is unconditional
+        # (the node's own flag is implementation state, not part of the stated relation)
+        return [y for y in (unwrap(x) for x in e.all) if not blank(y)]
 
     def is_expr(x):
         return isinstance(x, D.TexExpr) and not isinstance(x, D.TexText)
